@@ -72,7 +72,7 @@ type RunResult struct {
 func defaultConfig() Config {
 	return Config{
 		MaxDepth: 200, MaxSteps: 5_000_000, MaxPaths: 0, MaxSymAlloc: 64, MaxConcreteAlloc: 1 << 22,
-		MaxSymStore: 64, MaxFanout: 256, Merge: true, TimeoutMs: 30000, Workers: runtime.NumCPU(),
+		MaxSymStore: 64, MaxFanout: 256, Merge: true, TimeoutMs: 30000, FirstTimeoutMs: 1500, Workers: runtime.NumCPU(),
 		Unwind: 96, TimeBudgetS: 0,
 	}
 }
@@ -216,28 +216,38 @@ func load(jf JobFile) (*ssa.Program, *ssa.Package, []*ssa.Package, error) {
 	absDir, _ := filepath.Abs(filepath.Join(jf.Dir, jf.Pkg))
 	overlay := map[string][]byte{}
 	pkgName := ""
+	type hf struct{ path, dir string }
+	var hfs []hf
 	for _, f := range jf.Files {
-		b, err := os.ReadFile(f)
+		h := hf{path: f, dir: absDir}
+		if i := strings.LastIndex(f, "@"); i >= 0 { // "<file>@<package dir relative to the repo>": helper injected into another package
+			h.path = f[:i]
+			h.dir, _ = filepath.Abs(filepath.Join(jf.Dir, f[i+1:]))
+		}
+		hfs = append(hfs, h)
+	}
+	for _, h := range hfs {
+		b, err := os.ReadFile(h.path)
 		if err != nil {
 			return nil, nil, nil, err
 		}
-		if m := pkgClause.FindSubmatch(b); m != nil && string(m[1]) != "PKG" {
+		if m := pkgClause.FindSubmatch(b); m != nil && string(m[1]) != "PKG" && h.dir == absDir {
 			pkgName = string(m[1])
 		}
 	}
-	for _, f := range jf.Files {
-		b, err := os.ReadFile(f)
+	for _, h := range hfs {
+		b, err := os.ReadFile(h.path)
 		if err != nil {
 			return nil, nil, nil, err
 		}
 		if m := pkgClause.FindSubmatch(b); m != nil && string(m[1]) == "PKG" {
 			b = []byte(strings.Replace(string(b), "package PKG", "package "+pkgName, 1))
 		}
-		name := "zz_verif_" + filepath.Base(f)
-		if jf.Tests && !strings.HasSuffix(name, "_test.go") {
+		name := "zz_verif_" + filepath.Base(h.path)
+		if jf.Tests && !strings.HasSuffix(name, "_test.go") && h.dir == absDir {
 			name = strings.TrimSuffix(name, ".go") + "_test.go"
 		}
-		p := filepath.Join(absDir, name)
+		p := filepath.Join(h.dir, name)
 		overlay[p] = b
 		overlayFiles[p] = b
 	}
